@@ -547,11 +547,34 @@ pub fn lookup_point(rng: &mut Rng) -> (f64, f64) {
     }
 }
 
-/// a point hugging an edge or a vertex of a random cell (just inside or just outside)
-pub fn edge_hugging_point(rng: &mut Rng, res: i32) -> (f64, f64) {
-    let (lon, lat) = crate::golden::uniform_point(rng);
-    let lat = lat.clamp(-60.0, 60.0);
-    let id = lonlat_to_cell(LonLat::new(lon, lat), res).unwrap();
+/// a point within 10^-u rad (u = 0.5..6) of one of the 20 dodecahedron vertices, as (lon, lat)
+pub fn vertex_region_point(rng: &mut Rng) -> (f64, f64) {
+    let o = get_origins();
+    loop {
+        let i = rng.below(12) as usize;
+        let j = rng.below(12) as usize;
+        let k = rng.below(12) as usize;
+        let a = cart3(o[i].axis.theta().get(), o[i].axis.phi().get());
+        let b = cart3(o[j].axis.theta().get(), o[j].axis.phi().get());
+        let c = cart3(o[k].axis.theta().get(), o[k].axis.phi().get());
+        let d = |x: [f64; 3], y: [f64; 3]| x[0] * y[0] + x[1] * y[1] + x[2] * y[2];
+        if i == j || j == k || i == k || d(a, b) < 0.4 || d(b, c) < 0.4 || d(a, c) < 0.4 {
+            continue;
+        }
+        let s = [a[0] + b[0] + c[0], a[1] + b[1] + c[1], a[2] + b[2] + c[2]];
+        let n = (s[0] * s[0] + s[1] * s[1] + s[2] * s[2]).sqrt();
+        let e = 10f64.powf(-(0.5 + 5.5 * rng.unit()));
+        let v = [s[0] / n + e * (2.0 * rng.unit() - 1.0), s[1] / n + e * (2.0 * rng.unit() - 1.0), s[2] / n + e * (2.0 * rng.unit() - 1.0)];
+        let r = (v[0] * v[0] + v[1] * v[1] + v[2] * v[2]).sqrt();
+        let ll = to_lon_lat(Spherical::new(Radians::new_unchecked(v[1].atan2(v[0])), Radians::new_unchecked((v[2] / r).acos())));
+        return (ll.longitude(), ll.latitude().clamp(-90.0, 90.0));
+    }
+}
+
+/// a point hugging an edge or a vertex of the cell that contains `base` (just inside or just outside: the distance
+/// from the edge is 10^-u of the centre-to-edge distance, u = 1.5..6)
+pub fn edge_hugging_point_at(rng: &mut Rng, res: i32, base: (f64, f64)) -> (f64, f64) {
+    let id = lonlat_to_cell(LonLat::new(base.0, base.1), res).unwrap();
     let c = cell_to_lonlat(id).unwrap();
     let b = cell_to_boundary(id, Some(CellToBoundaryOptions { closed_ring: false, segments: Some(1) })).unwrap();
     let k = rng.below(b.len() as u64) as usize;
@@ -559,8 +582,20 @@ pub fn edge_hugging_point(rng: &mut Rng, res: i32) -> (f64, f64) {
     let t = if rng.chance(1, 3) { 0.0 } else { rng.unit() };
     let ex = p.longitude() + t * (q.longitude() - p.longitude());
     let ey = p.latitude() + t * (q.latitude() - p.latitude());
-    let f = 1.0 + (if rng.chance(1, 2) { 1.0 } else { -1.0 }) * 10f64.powi(-(rng.range_i(2, 6) as i32));
+    let f = 1.0 + (if rng.chance(1, 2) { 1.0 } else { -1.0 }) * 10f64.powf(-(1.5 + 4.5 * rng.unit()));
     (c.longitude() + f * (ex - c.longitude()), c.latitude() + f * (ey - c.latitude()))
+}
+
+/// a point hugging an edge or a vertex of a random cell; half of the cells are taken next to a dodecahedron vertex,
+/// where the lattice estimate of the lookup is worst and its probing search is needed most
+pub fn edge_hugging_point(rng: &mut Rng, res: i32) -> (f64, f64) {
+    let base = if rng.chance(1, 2) {
+        let (lon, lat) = crate::golden::uniform_point(rng);
+        (lon, lat.clamp(-60.0, 60.0))
+    } else {
+        vertex_region_point(rng)
+    };
+    edge_hugging_point_at(rng, res, base)
 }
 
 pub fn cases_c01(rng: &mut Rng, thorough: bool) -> Vec<GenCase> {
@@ -666,7 +701,8 @@ pub fn cases_for(prop: &str, rng: &mut Rng, thorough: bool) -> Option<(Vec<GenCa
         "C11" => (cases_c11(rng, thorough), "Corr.GeoCases"),
         "C06" => {
             let g = std::fs::read_to_string("/verif/golden/golden_v062.txt").expect("golden table")
-                + &std::fs::read_to_string("/verif/golden/golden_v062_seams.txt").expect("golden table 2");
+                + &std::fs::read_to_string("/verif/golden/golden_v062_seams.txt").expect("golden table 2")
+                + &std::fs::read_to_string("/verif/golden/golden_v062_probes.txt").expect("golden table 3");
             (cases_c06(rng, thorough, &g), "Corr.GeoCases")
         }
         _ => return None,
